@@ -554,7 +554,16 @@ class Source:
         """locate `Class.method` / `function` (and optionally a nested def inside it) in rel; never cached between runs."""
         tree = self.tree(rel); body = tree.body; node = None
         for part in qual.split('.'):
-            cands = [n for n in body if isinstance(n, (ast.FunctionDef, ast.AsyncFunctionDef, ast.ClassDef)) and n.name == part
+            flat = []
+            def walk_top(stmts):          # definitions under module-level `if` / `try` blocks (version switches) are visible too; the first branch wins
+                for n in stmts:
+                    if isinstance(n, (ast.FunctionDef, ast.AsyncFunctionDef, ast.ClassDef)): flat.append(n)
+                    elif isinstance(n, ast.If): walk_top(n.body); walk_top(n.orelse)
+                    elif isinstance(n, ast.Try): walk_top(n.body)
+            walk_top(body)
+            first = {}
+            for n in flat: first.setdefault((n.name, id(n) if any(ast.unparse(d).split('.')[-1] == 'overload' for d in getattr(n, 'decorator_list', [])) else 0), []).append(n)
+            cands = [n for n in flat if isinstance(n, (ast.FunctionDef, ast.AsyncFunctionDef, ast.ClassDef)) and n.name == part
                      and not any(ast.unparse(d).split('.')[-1] == 'overload' for d in getattr(n, 'decorator_list', []))]
             node = cands[-1] if cands else None          # the last (effective) definition; @overload stubs are skipped
             if node is None: raise Unsupported(f"function {qual} not found in {rel}")
@@ -589,7 +598,8 @@ def _run_cvc5(txt, timeout_ms):
             out = subprocess.run(['/usr/bin/cvc5', f'--tlimit={timeout_ms}', path], capture_output=True, text=True, timeout=timeout_ms / 1000 + 5).stdout.strip().splitlines()
         finally:
             os.unlink(path)
-        return out[0] if out else 'unknown'
+        r = out[0] if out else 'unknown'
+        return r if r in ('sat', 'unsat', 'unknown') else 'error'
     except Exception:
         return 'unknown'
 
